@@ -99,6 +99,91 @@ theorem rich_pos_indep (lb : Nat → Nat → Bool) : PosIndep (richOracle lb) ()
   simp only [richOracle] at hlt ⊢
   exact fls_drop lb rest true j hj hlt
 
+/-- **The whole property for `richtext.SoftwrapScanner`, unconditionally** (no hypothesis on a
+segmentation oracle: `firstLineSegment` is transcribed, the pairwise break function `lb` is arbitrary).
+For every text whose line terminators are whitespace (true of Unicode), every positive width: the
+iteration terminates with lines `ls`; nothing but whitespace is lost, order and styles kept; every
+line fits the width (trailing whitespace and single over-wide graphemes aside); a hard line break
+always ends the line (both readings); no run that fits a line of its own is split.  The same strength
+as the plain scanner's theorems, which carry the oracle hypotheses `OracleOK`/`OracleTermW`/`PosIndep`. -/
+theorem rich_wrap_property (lb : Nat → Nat → Bool) (width : Nat) (hw : 0 < width) (cells : List Cell)
+    (hsp : ∀ c ∈ cells, c.term = true → c.sp = true) :
+    ∃ ls, richLines lb width cells = .ok ls ∧
+      conserved cells ls = true ∧
+      (∀ l ∈ ls, VaxisModel.Spec.Wrap.lineWidthOK width l = true) ∧
+      hardBreakOK cells ls = true ∧ noTermInLines ls = true ∧
+      noNeedlessSplit lb width cells ls = true := by
+  obtain ⟨ls, h, hc⟩ := scanAll_ok (richOracle lb) () width (richOracle_ok lb) (cells.length + 1) cells ()
+    (Nat.lt_succ_self _)
+  refine ⟨ls, h, by simp [conserved, hc hw], scanAll_width _ () width _ cells () ls h,
+    rich_hard_break_end_to_end lb width hw cells ls h, rich_lines_no_terminator lb width cells hsp ls h,
+    rich_no_needless_split_end_to_end lb width hw cells hsp ls h⟩
+
+/-- **The whole property for `text.SoftwrapScanner`** over any segmenter meeting the three hypotheses
+the harness asserts of uniseg per query (`OracleOK`, `OracleTermW … Fresh`, `PosIndep`), started in the
+unknown state like the real scanner: termination, conservation, width, hard breaks (both readings), no
+needless split (runs = the segmenter's own segmentation). -/
+theorem plain_wrap_property {σ : Type} (o : σ → List Cell → Nat × Bool × σ) (ini : σ) (hok : OracleOK o)
+    (Fresh : σ → List Cell → Prop) (hot : OracleTermW o ini Fresh) (hp : PosIndep o ini)
+    (width : Nat) (hw : 0 < width) (cells : List Cell) (hf0 : Fresh ini cells)
+    (hsp : ∀ c ∈ cells, c.term = true → c.sp = true) :
+    ∃ ls, plainLines o width cells ini = .ok ls ∧
+      conserved cells ls = true ∧
+      (∀ l ∈ ls, VaxisModel.Spec.Wrap.lineWidthOK width l = true) ∧
+      hardBreakOK cells ls = true ∧ noTermInLines ls = true ∧
+      noNeedlessSplitRuns (segChain o (cells.length + 1) ini cells) width ls = true := by
+  obtain ⟨ls, h, hc⟩ := scanAll_ok o ini width hok (cells.length + 1) cells ini (Nat.lt_succ_self _)
+  refine ⟨ls, h, by simp [conserved, hc hw], scanAll_width _ ini width _ cells ini ls h,
+    hard_break_end_to_end o ini hok Fresh hot width hw cells ini hf0 ls h,
+    lines_no_terminator o ini hok Fresh hot width cells hsp ini hf0 ls h,
+    plain_no_needless_split_end_to_end o ini hok hp width hw cells ini ls h⟩
+
+/-! ### `PosIndep` cannot be dropped
+
+A segmenter whose answer from the unknown state, *inside* a segment, runs past the end of that segment
+(a break opportunity of the whole-text segmentation is lost for a restarted query — what uniseg does
+in the LB14 / LB25 contexts the harness discards) makes the scanner split a run that fits: the
+hypothesis of `plain_no_needless_split_end_to_end` is necessary, and a proof without it would have
+to be about uniseg's rules themselves. -/
+
+/-- A segmenter over states: 9 = the unknown state (`-1` of uniseg; also what the scanner stores after
+splitting a long word).  From the start it cuts the 8-grapheme text `aaaa|bb|cc`; asked again with the
+unknown state in front of the last `a` it answers `ab|bc|c`. -/
+def shiftyOracle (st : Nat) (rest : List Cell) : Nat × Bool × Nat :=
+  match st, rest.length with
+  | 9, 8 => (4, false, 0)
+  | 0, 4 => (2, false, 0)
+  | 9, 5 => (2, false, 2)
+  | 2, 3 => (2, false, 2)
+  | _, n => (n, true, st)
+
+theorem shiftyOracle_ok : OracleOK shiftyOracle := by
+  intro st rest hne
+  have hpos : 0 < rest.length := List.length_pos_iff.mpr hne
+  unfold shiftyOracle
+  split <;> simp_all <;> omega
+
+/-- **The hypothesis `PosIndep` of `plain_no_needless_split_end_to_end` is necessary**: there are a
+segmenter meeting `OracleOK`, a text and a width for which the scanner model — started, like
+`text.SoftwrapScanner`, in the same unknown state it falls back to after a long-word split — emits
+lines that split a run which fits on a line of its own (`aaaa bb cc` without the blanks at width 3:
+lines `aaa`, `ab`, `bcc`; the run `bb` is divided). -/
+theorem plain_no_needless_split_needs_pos_indep :
+    ∃ (o : Nat → List Cell → Nat × Bool × Nat) (ini : Nat) (width : Nat) (cells : List Cell) (ls : List (List Cell)),
+      OracleOK o ∧ 0 < width ∧ plainLines o width cells ini = .ok ls ∧
+      noNeedlessSplitRuns (segChain o (cells.length + 1) ini cells) width ls = false ∧ ¬ PosIndep o ini := by
+  let a : Cell := { g := 0, w := 1, style := 0, sp := false, term := false, nl := false }
+  let b : Cell := { g := 1, w := 1, style := 0, sp := false, term := false, nl := false }
+  let c : Cell := { g := 2, w := 1, style := 0, sp := false, term := false, nl := false }
+  have hl : plainLines shiftyOracle 3 [a, a, a, a, b, b, c, c] 9 = .ok [[a, a, a], [a, b], [b, c, c]] := by decide
+  have hn : noNeedlessSplitRuns (segChain shiftyOracle ([a, a, a, a, b, b, c, c].length + 1) 9 [a, a, a, a, b, b, c, c]) 3
+      [[a, a, a], [a, b], [b, c, c]] = false := by decide
+  refine ⟨shiftyOracle, 9, 3, [a, a, a, a, b, b, c, c], [[a, a, a], [a, b], [b, c, c]], shiftyOracle_ok, by decide, hl, hn, ?_⟩
+  intro hp
+  have := plain_no_needless_split_end_to_end shiftyOracle 9 shiftyOracle_ok hp 3 (by decide) [a, a, a, a, b, b, c, c] 9 _ hl
+  rw [hn] at this
+  exact Bool.false_ne_true this
+
 /-- Non-vacuity for `rich_no_needless_split_end_to_end`: "ab cd" at width 3 keeps "ab" and "cd" whole
 (and the oracle rejects the cutting "a" | "b cd"); "abcd" at width 3 is divided, which the oracle
 accepts because the run does not fit. -/
